@@ -20,7 +20,7 @@ from rules_struct import rawlock_impl_fns, HL_SEM, _floc
 
 RETRY = "collection::RetryingLockCollection"
 QUICK_N = 3
-THOROUGH_N = 4
+THOROUGH_N = 5
 LID = "LIST"
 RETRIES = 2
 
@@ -77,7 +77,7 @@ def explore(ctx, fn, n, mode, kind, faults=1, loop_limit=None, preheld=None, add
             del I.primitives[p]
     I.max_faults = faults
     I.acq_limit = acq_limit
-    I.state_limit = 2000000 if tier_n() >= 4 else 300000
+    I.state_limit = 3000000 if tier_n() >= 4 else 300000
     I.loop_limit = loop_limit or (n + 3)
     st = State()
     lst = data_model(I, st, n, addrs)
@@ -177,11 +177,11 @@ def _run_all(ctx, tier_n):
             ll = None
             nn = n
             if label.startswith("Retrying::raw_write") or label.startswith("Retrying::raw_read"):
-                if n > 4:
+                if n > 5:
                     continue
-                ll = (n + 2) * (RETRIES + 1)      # RETRIES full retry rounds, then the path is cut
+                ll = (n + 2) * (retries() + 1)      # that many full retry rounds, then the path is cut
             paths, err = explore(ctx, f, nn, mode, kind, faults=tier_faults(), loop_limit=ll, preheld=pre,
-                                 acq_limit=(RETRIES + 1) if ll else None)
+                                 acq_limit=(retries() + 1) if ll else None)
             out[(label, n)] = (f, kind, mode, paths, err)
     return out
 
@@ -189,6 +189,12 @@ def _run_all(ctx, tier_n):
 def tier_n():
     import os
     return THOROUGH_N if os.environ.get("HLV_TIER") == "thorough" else QUICK_N
+
+
+def retries():
+    """retry rounds explored for the retrying collection: 2 (quick), 3 (thorough)"""
+    import os
+    return RETRIES + 1 if os.environ.get("HLV_TIER") == "thorough" else RETRIES
 
 
 def tier_faults():
